@@ -17,22 +17,22 @@ from .unescape import unescape_string
 StateFn: TypeAlias = Callable[[], Optional["StateFn"]]
 
 RE_ASSIGN_OP = re.compile(r"=")  # TODO: scan until ch?
-RE_DROP = re.compile(r"DROP")
+RE_DROP = re.compile(r"DROP(?![_a-zA-Z0-9])")
 RE_GRAMMAR_DOC = re.compile(r"//!")
 RE_IDENTIFIER = re.compile(r"[_a-zA-Z][_a-zA-Z0-9]*")
 RE_INTEGER = re.compile(r"-?[0-9]+")
 RE_MODIFIER = re.compile(r"[_@\$!]")
 RE_NEWLINE = re.compile(r"\r?\n")
 RE_NUMBER = re.compile(r"[0-9]+")
-RE_PEEK = re.compile(r"PEEK")
-RE_PEEK_ALL = re.compile(r"PEEK_ALL")
-RE_POP = re.compile(r"POP")
-RE_POP_ALL = re.compile(r"POP_ALL")
+RE_PEEK = re.compile(r"PEEK(?![_a-zA-Z0-9])")
+RE_PEEK_ALL = re.compile(r"PEEK_ALL(?![_a-zA-Z0-9])")
+RE_POP = re.compile(r"POP(?![_a-zA-Z0-9])")
+RE_POP_ALL = re.compile(r"POP_ALL(?![_a-zA-Z0-9])")
 RE_PUSH = re.compile(r"PUSH")
 RE_PUSH_LITERAL = re.compile(r"PUSH_LITERAL")
 RE_RANGE_OP = re.compile(r"\.\.")
 RE_RULE_DOC = re.compile(r"///")
-RE_TAG = re.compile(r"#[_a-zA-z][_a-zA-Z0-9]+(?=\s*=)")
+RE_TAG = re.compile(r"#[_a-zA-Z][_a-zA-Z0-9]*")
 RE_WHITESPACE = re.compile(r"[ \t\n\r]+")
 RE_CHAR = re.compile(
     r"'\\[\\\"rnt0']'|'\\x[0-9a-fA-F]{2}'|'\\u\{[0-9a-fA-F]{2,6}\}'|'(?s:.)'"
@@ -149,6 +149,9 @@ class Scanner:
 
         self.skip_trivia()
 
+        if self.grammar.startswith("PUSH", self.pos):
+            return self.error("rule names must not start with PUSH")
+
         if value := self.scan(RE_IDENTIFIER):
             self.emit(TokenKind.IDENTIFIER, value)
         elif self.pos == len(self.grammar):
@@ -220,10 +223,12 @@ class Scanner:
 
     def accept_term(self) -> None:
         if value := self.scan(RE_TAG):
-            # Assumes RE_TAG is using a lookahead assertion for "=".
             self.emit(TokenKind.TAG, value)
             self.skip_trivia()
-            self.emit(TokenKind.ASSIGN_OP, self.next())
+            if self.peek() == "=":
+                self.emit(TokenKind.ASSIGN_OP, self.next())
+            else:
+                self.error("expected the assignment operator")
             self.skip_trivia()
 
         # Any number of prefix operators, in any order.
